@@ -1,7 +1,7 @@
 """C06 — independence from line order, file split, fill splitting (structural clauses)."""
 from mir import Terms, parse_callee, show, op_place, op_const, place_proj, subterms, is_decimal_arith_assign
 from flow import root_of_operand, is_slice_sort, _const_through
-from roles import Roles, RULES, agg_fields, guards_of, truth, is_agg
+from roles import Roles, RULES, agg_fields, guards_of, truth, is_agg, eq_guard
 import rules.c16 as c16
 import panics as P
 
@@ -53,15 +53,18 @@ def canon(R, rep):
     rep.ob("R2", "canon:stable-ascending", stable and asc, "the canonical sort is stable and ascending" if stable and asc else
            f"canonical sort stable={stable} ascending={asc}", c.loc(), key="R2:canon:sort")
     # merge predicate: guards dominating the first accumulation
-    merges = [(i, t) for i, t in c.calls() if is_decimal_arith_assign(t["callee"]) == "AddAssign"]
+    mb = R.merge_site()
+    mtb = R.terms(mb, 0)
+    merges = [(i, t) for i, t in mb.calls() if is_decimal_arith_assign(t["callee"]) == "AddAssign"]
     if not merges:
         rep.unresolved("R1", "merge", "no adjacent-merge accumulation found")
         return
     merge_keys = set()
     i0 = merges[0][0]
-    for cond, val, s in guards_of(c, tb, i0):
-        if isinstance(cond, tuple) and cond[0] == "cmp" and cond[1] == "Eq" and truth(val):
-            for side in (cond[2], cond[3]):
+    for cond, val, s in guards_of(mb, mtb, i0):
+        eg = eq_guard(cond, val)
+        if eg:
+            for side in eg:
                 for x in subterms(side):
                     if isinstance(x, tuple) and len(x) == 3 and x[0] == "field" and isinstance(x[2], str) and x[2] in ("date", "ticker"):
                         merge_keys.add(x[2])
